@@ -5,6 +5,7 @@ import (
 	"reflect"
 	"strings"
 	"testing"
+	"time"
 
 	"github.com/antonmedv/expr"
 	"github.com/antonmedv/expr/checker"
@@ -47,6 +48,15 @@ func judgeC18(c *core.Case, cfg *core.Config) core.Verdict {
 	opts := []expr.Option{expr.Optimize(opt)}
 	if mode == "typed" {
 		opts = append(opts, expr.Env(core.Env{}))
+	}
+	// the reference evaluates the left side first, within its step and allocation limits: a case beyond them is
+	// skipped, and for the others the watchdog started by TestC18 may call a run that never returns a violation
+	if c.X != nil {
+		var rlog []string
+		if ref := core.RefEval(c.X, spec.Build(&rlog), core.RefOpts{Excl: cfg.Excl}); ref.Fail != nil && ref.Fail.Class == "toolong" {
+			v.Skip = "reference:toolong"
+			return v
+		}
 	}
 	cache := map[string]c18Run{}
 	var rejected string
@@ -585,5 +595,6 @@ func TestC18(t *testing.T) {
 	rec.Extra["rule"] = "rapid-generated identity instances: arrays from the typed generator (environment arrays of ints/floats/strings/structs/pointers/grids, literals, ranges, results of map/filter, slices, conditionals; empty/singleton/long), predicates and mappers generated in the closure context (containing builtins, nesting up to 3, thorough 5); twelve identities (all/any, none/any, one/count, count/filter, len-map, filter-mask, scope-own, scope-inner at 2-3 levels, in-range, slice-len, slice-parts, slice-str), each as separately compiled programs compared by the harness and, for scalar sides, also as the single expression `(lhs) == (rhs)`; optimiser on/off, typed/untyped. Non-trivial: the predicate takes both truth values over xs (or xs non-empty for the scoping/slicing identities) or closure nesting >= 2; distinct by identity+sources+environment+options."
 	rec.Extra["assumptions"] = []string{"for the four predicate identities both sides visit the same elements up to the same stopping point and must fail together; for the others an instance in which a side fails is skipped and counted", "sequence results are compared by the harness (Equiv), never by the language's own == across representations (finding F12)"}
 	rec.Extra["floor"] = 0.1
+	core.StartWatchdog(rec, 4*time.Minute, "the reference evaluates the left side of the identity within 2e6 steps and 6e6 created elements", 8<<30)
 	core.RunRapid(t, rec, "random", cfg.N(40000, 600000), func(rt *rapid.T) *core.Case { return genC18(rt, cfg) })
 }
